@@ -330,10 +330,11 @@ pub fn exec(f: &[&str]) -> Option<String> {
 /// 10-character sub-alphabet of the exhaustive part: letter, upper-case letter, `_`, punctuation,
 /// blank, line break, 2-byte, 3-byte wide, 4-byte wide, combining mark.
 pub const SUB: &[char] = &['a', 'Z', '_', ',', ' ', '\n', 'é', '漢', '😀', '\u{0301}'];
-/// alphabet of the random part (adds multi-byte white space, CR, tab, ZWJ, case-changing `ß`)
+/// alphabet of the random part (adds multi-byte white space, CR, tab, ZWJ, and letters whose case
+/// mapping changes the byte length: `ß`→`SS` (2→2), `ﬁ`→`FI` (3→2), `ŉ`→`ʼN` (2→3), `İ`→`i̇` (2→3))
 const RANDA: &[char] = &[
     'a', 'b', 'Z', '0', '_', ',', '.', '(', ' ', ' ', '\t', '\n', '\n', '\r', 'é', 'ß', '漢', '😀', '\u{0301}',
-    '\u{200D}', '\u{3000}', '\u{00A0}',
+    '\u{200D}', '\u{3000}', '\u{00A0}', '\u{FB01}', '\u{0149}', '\u{0130}',
 ];
 
 const WORDS: &[&str] = &["B", "E", "V"];
